@@ -1,6 +1,8 @@
 import Upf.Proofs.Up4Frames
 import Upf.Proofs.Up4Ids
 import Upf.Proofs.Up4Reject
+import Upf.Proofs.Up4Counters
+import Upf.Proofs.Up4Live
 /-!
 # C15 — P4 datapath IDs stay exclusive and in their own pool under write failures
 
@@ -16,9 +18,13 @@ Proved here, for every request sequence of any length and every environment:
   (other than the tolerated ALREADY_EXISTS).
 * tunnel-peer IDs and application IDs: the ID a recorded peer / application holds is never in the free queue, two recorded
   holders never share an ID, the queue never holds an ID twice.
-Counter cells are decided by the correspondence run and the oracles of the acceptor (`Check/P4.lean`: `poolFindings`,
-`exclusiveFindings`), not by a theorem: their owners are the PDRs of the stored sessions, which live in the handlers'
-state — see DESIGN.md.
+* counter cells, at the plug-in's interface: the cells an establishment hands out are pairwise distinct, were free and are no
+  longer free; only the counter loop of `sendCreate` takes cells and only an accepted `sendDelete` returns cells — exactly
+  those of the deleted PDRs; along every history the ledger "free / left the pool and not yet returned" never has a cell on
+  both sides nor twice on one (`counters_inv`).
+That the cells which left the pool are the `ctrID`s of the PDRs of the stored sessions (the owners live in the handlers' state)
+is decided by the correspondence run and the oracles of the acceptor (`Check/P4.lean`: `poolFindings`, `exclusiveFindings`);
+it is false of the code for a PDR created by a modification (open finding) — see DESIGN.md.
 -/
 namespace C15
 open Up4
@@ -141,6 +147,96 @@ theorem update_accepted_only_without_failed_write (cfg : Cfg4) (c : Ctx) (all up
   obtain ⟨l, e, g⟩ := sendUpdate_ext cfg c all updated
   exact ⟨l, e, g hok⟩
 
+/-! ## counter cells -/
+
+/-- the cells an accepted establishment gave to the session's PDRs: pairwise distinct, taken from the free pool, no longer free;
+the pool lost nothing else -/
+theorem created_counter_cells_exclusive (c : Ctx) (n : Nat) (pdrs : List Agent.Pdr) (hnd : c.st.ctrFree.Nodup)
+    (hok : (allocCounters c n [] pdrs).2.2 = true) :
+    ∃ ids : List Nat, ids.Nodup ∧ ids.length = min n pdrs.length ∧
+      (allocCounters c n [] pdrs).2.1 = assign (pdrs.take n) ids ++ pdrs.drop n ∧
+      (∀ i ∈ ids, i ∈ c.st.ctrFree ∧ i ∉ (allocCounters c n [] pdrs).1.st.ctrFree) ∧
+      (∀ x ∈ (allocCounters c n [] pdrs).1.st.ctrFree, x ∈ c.st.ctrFree) :=
+  created_cells_exclusive c n pdrs hnd hok
+
+/-- a modification never touches the counter pool; a refused deletion neither; an accepted deletion returns exactly the cells of
+the deleted PDRs -/
+theorem update_keeps_counter_pool (cfg : Cfg4) (c : Ctx) (all updated : Rules) : (sendUpdate cfg c all updated).1.st.ctrFree = c.st.ctrFree :=
+  sendUpdate_ctr cfg c all updated
+theorem delete_returns_the_deleted_cells (cfg : Cfg4) (c : Ctx) (del : Rules) :
+    (sendDelete cfg c del).1.st.ctrFree =
+      if (sendDelete cfg c del).2 then (del.pdrs.map (·.ctrID)).foldl setAdd c.st.ctrFree else c.st.ctrFree :=
+  sendDelete_ctr cfg c del
+
+/-- the handler stores what the plug-in returned: the session an accepted establishment appends to the association's store holds,
+PDR by PDR, pairwise distinct counter cells, each free before the request and not free after it -/
+theorem established_session_holds_fresh_cells (cfg : Agent.Cfg) (cfg4 : Cfg4) (x : Agent4.World4) (a lseid : Nat) (r : Agent.EstReq)
+    (hnd : x.c.st.ctrFree.Nodup) (h : (Agent4.establish cfg cfg4 x a lseid r).2.upSeid.isSome) :
+    ∃ s : Agent.Session, s.lseid = lseid ∧
+      ((Agent4.establish cfg cfg4 x a lseid r).1.w.conn a).sessions = (x.w.conn a).sessions ++ [s] ∧
+      (s.pdrs.map (·.ctrID)).Nodup ∧
+      ∀ i ∈ s.pdrs.map (·.ctrID), i ∈ x.c.st.ctrFree ∧ i ∉ (Agent4.establish cfg cfg4 x a lseid r).1.c.st.ctrFree :=
+  Agent4.establish_session_cells cfg cfg4 x a lseid r hnd h
+
+/-- Session Deletion: accepted — the session leaves the store and exactly its PDRs' cells return; refused — store and pool untouched -/
+theorem deleted_session_returns_its_cells (cfg4 : Cfg4) (x : Agent4.World4) (a seid : Nat) (s : Agent.Session)
+    (hs : (x.w.conn a).sessions.find? (·.lseid = seid) = some s) :
+    ((Agent4.deleteSession cfg4 x a seid).2.cause = Agent.causeAccepted →
+        (Agent4.deleteSession cfg4 x a seid).1.c.st.ctrFree = (s.pdrs.map (·.ctrID)).foldl setAdd x.c.st.ctrFree ∧
+        ((Agent4.deleteSession cfg4 x a seid).1.w.conn a).sessions = (x.w.conn a).sessions.filter (·.lseid ≠ seid)) ∧
+    ((Agent4.deleteSession cfg4 x a seid).2.cause ≠ Agent.causeAccepted →
+        (Agent4.deleteSession cfg4 x a seid).1.c.st.ctrFree = x.c.st.ctrFree ∧ (Agent4.deleteSession cfg4 x a seid).1.w = x.w) :=
+  Agent4.delete_session_cells cfg4 x a seid s hs
+
+/-- the counter ledger along a history: the cells that leave the pool during a create are booked as held, an accepted delete
+takes the cells of the deleted PDRs off the books -/
+def ledgerStep (cfg : Cfg4) (x : Ctx × List Nat) (s : Step) : Ctx × List Nat :=
+  let c := { x.1 with picks := s.picks, injs := s.injs }
+  match s.req with
+  | .create all updated => ((sendCreate cfg c all updated).1, x.2 ++ leftPool c.st.ctrFree (sendCreate cfg c all updated).1.st.ctrFree)
+  | .update all updated => ((sendUpdate cfg c all updated).1, x.2)
+  | .delete del => ((sendDelete cfg c del).1,
+      if (sendDelete cfg c del).2 then x.2.filter (fun y => !(del.pdrs.map (·.ctrID)).contains y) else x.2)
+
+def ledger (cfg : Cfg4) (srv : Srv) (startInjs : List Inj) (h : List Step) : Ctx × List Nat :=
+  h.foldl (ledgerStep cfg) ((start cfg srv startInjs).1, [])
+
+/-- the ledger's first component is the run itself -/
+theorem ledger_is_run (cfg : Cfg4) (srv : Srv) (startInjs : List Inj) (h : List Step) :
+    (ledger cfg srv startInjs h).1 = run cfg srv startInjs h := by
+  unfold ledger run
+  generalize (start cfg srv startInjs).1 = c
+  generalize ([] : List Nat) = held
+  induction h generalizing c held with
+  | nil => rfl
+  | cons s rest ih =>
+    simp only [List.foldl_cons]
+    have : (ledgerStep cfg (c, held) s).1 = apply cfg c s := by
+      unfold ledgerStep apply
+      cases s.req <;> rfl
+    rw [← this]
+    exact ih _ _
+
+/-- **counter cells, every history, every environment**: a cell is never free while it is booked as held (handed out and not yet
+returned by an accepted deletion), never booked twice, and the pool never holds a cell twice -/
+theorem counters_inv (cfg : Cfg4) (srv : Srv) (startInjs : List Inj) (h : List Step) :
+    CInv (ledger cfg srv startInjs h).1.st.ctrFree (ledger cfg srv startInjs h).2 := by
+  unfold ledger
+  have base : CInv (start cfg srv startInjs).1.st.ctrFree [] := ⟨start_ctr_nodup cfg srv startInjs, List.nodup_nil, by simp⟩
+  generalize (start cfg srv startInjs).1 = c at base
+  generalize ([] : List Nat) = held at base
+  induction h generalizing c held with
+  | nil => exact base
+  | cons s rest ih =>
+    simp only [List.foldl_cons]
+    apply ih
+    show CInv (ledgerStep cfg (c, held) s).1.st.ctrFree (ledgerStep cfg (c, held) s).2
+    unfold ledgerStep
+    cases s.req with
+    | create all updated => exact sendCreate_ledger cfg _ all updated held base
+    | update all updated => simp only; rw [sendUpdate_ctr]; exact base
+    | delete del => exact sendDelete_ledger cfg _ del held base
+
 /-! ## the statements are about something: small concrete runs (evaluated by the kernel) -/
 
 private def c0 (injs : List Inj) (picks : List Nat) : Ctx :=
@@ -160,5 +256,10 @@ example : (configureAppMeter (c0 [] [3, 1]) q1 true).1.st.appFree = [2] := by de
 example : (Rpc.good { ups := [], inj := .rpc, codes := [] }) = false := by decide
 example : (Rpc.good { ups := [], inj := .none, codes := [0, 6] }) = true := by decide
 example : (Rpc.good { ups := [], inj := .upd 0 13, codes := [13, 0] }) = false := by decide
+
+-- counter cells: two PDRs get the two cells the environment picks (2, then 0), the pool keeps the third
+example : ((allocCounters (c0 [] [2, 0]) 2 [] [{ pdrID := 1 }, { pdrID := 2 }]).2.1.map (·.ctrID), (allocCounters (c0 [] [2, 0]) 2 [] [{ pdrID := 1 }, { pdrID := 2 }]).1.st.ctrFree) = ([2, 0], [1]) := by decide
+-- the reset of the second cell fails: refused, both cells have left the pool (the ledger books them as held)
+example : (allocCounters (c0 [.none, .rpc] [2, 0]) 2 [] [{ pdrID := 1 }, { pdrID := 2 }]).2.2 = false ∧ (allocCounters (c0 [.none, .rpc] [2, 0]) 2 [] [{ pdrID := 1 }, { pdrID := 2 }]).1.st.ctrFree = [1] := by decide
 
 end C15
